@@ -22,7 +22,7 @@ ASSUMPTIONS = [
     "sex clauses are asserted on every generated sample (design-phase base rate: 0 wrong in 3,000 samples at the same ranges)",
     "expect_flat_log2 is judged without a PAR genome (the statement does not say what PAR bins should be)",
 ]
-BUDGET_S = {"quick": 200, "thorough": 1200}
+BUDGET_S = {"quick": 600, "thorough": 2400}
 EST = ("median", "mean", "biweight", "mode")
 
 
